@@ -329,6 +329,12 @@ func judge(class string, key []byte, o *fw.Obs) {
 			for j := range in.m {
 				in.m[j].Absorb(src[j])
 			}
+			// the caller reuses its input buffers: the sponge must not depend on them after Absorb returned
+			for j := range src {
+				for k := range src[j] {
+					src[j][k] = int8((k+j)%3 - 1)
+				}
+			}
 			o.Count("absorb calls")
 		case "squeeze":
 			nSq++
